@@ -7,6 +7,7 @@ KANI_FILES = {
     "tensor": ["libm.rs", "tensor.rs"],
     "activation": ["activation.rs"],
     "objective": ["objective.rs"],
+    "optimizer": ["optimizer.rs"],
     "network": ["layers.rs", "network.rs"],
     "feedback": ["feedback.rs"],
     "dense": ["dense.rs"],
@@ -75,9 +76,9 @@ PLAN = {
         verus=["C07_activations.rs"],
         kani=True,
         undecided_clauses=[
-            "soft-max shift invariance under rounding (holds for the real-number formula exp(v_i-m)/sum, which the units establish; "
-            "floating-point (v+c)-max(v+c) need not equal v-max(v))",
-            "soft-max for vector lengths above the stated bound"],
+            "soft-max shift invariance: not decided (under rounding (v+c)-max(v+c) need not equal v-max(v); the subtraction of the maximum "
+            "is what keeps it finite, which IS decided for n <= 3)",
+            "soft-max for vector lengths above 3"],
     ),
     "C09": dict(
         title="Dropout never leaks into prediction or validation",
@@ -158,7 +159,7 @@ PLAN = {
         level="proof",
         verus=[],
         kani=True,
-        undecided_clauses=["shuffle for lengths above the stated bound (loop over a Vec of symbolic length is outside CBMC's reach)"],
+        undecided_clauses=["shuffle for lengths above 4 and Tensor::random for shapes above 2 entries (bounded; the element contract of generate is unbounded)"],
     ),
 }
 
@@ -212,9 +213,9 @@ MANIFEST_TEXT = {
              "weights, gradients and every state vector, to leave every other cell unchanged, and to index in bounds. Because all three "
              "rank copies are tied to one spec function, rank independence is a corollary; because the contract holds for arbitrary "
              "incoming state, it holds after every history by induction. Formula identity, not IEEE value reasoning.",
-        note="Float operators are uninterpreted (F1): totality, commutativity of + and *, x^2 == powf(x,2) == powi(x,2) assumed; "
-             "the iterator chain `(0..n).for_each` around the closure body and the slot addressing are covered by Kani harnesses (bounded) "
-             "or trusted; NaN-freedom clause undecided.",
+        note="Float operators are uninterpreted (F1): totality, commutativity of + and *, x^2 == powf(x,2) == powi(x,2) assumed; the iterator chain "
+             "`(0..n).for_each` around the closure bodies is trusted; slot isolation (SGDM, Adam: 4 slots, symbolic slot) and the default "
+             "substitution of Optimizer::validate (all f32) are Kani harnesses; NaN-freedom clause undecided.",
     ),
     "C06": dict(
         category="proof",
@@ -341,7 +342,8 @@ MANIFEST_TEXT = {
              "and all finite min<=max (result in [min,max], state stays valid, coefficients unchanged, no overflow), create() for all 2^64 "
              "seeds; shuffle is checked modularly against that verified contract (every value the contract allows) and non-modularly, "
              "for lengths up to the stated bound (bounded, labelled as such).",
-        note="CBMC's bit-precise float model; shuffle bounded in length; Tensor::random covered for small shapes only; clock stub.",
+        note="CBMC's bit-precise float model; shuffle bounded in length; Tensor::random on 2-entry shapes of every rank, modular on generate's "
+             "contract, clock replaced by a symbolic sub-second value.",
     ),
 }
 
